@@ -157,6 +157,45 @@ def root_lock_fns(facts):
     return acq, rel
 
 
+def root_release_points(facts, body, rel_ids=None):
+    """points of `body` that give the tree write lock back: calls of a release function (a body that stores 0 into TreeBin.lock_state),
+    calls of a function that does nothing but that on every path, and the drop (scope end, `mem::drop`, or unwinding) of a value whose
+    `Drop` impl is such a function -- an RAII handle around the write lock"""
+    from .analysis import return_points
+    cache = getattr(facts, "_root_release", None)
+    if cache is None:
+        if rel_ids is None:
+            rel_ids = {b.id for b in root_lock_fns(facts)[1]}
+        rel = set(rel_ids)
+        grew = True
+        while grew:
+            grew = False
+            for b in facts.bodies:
+                if b.id in rel or b.kind == "Closure":
+                    continue
+                pts = {c.point for c in b.calls if c.resolved in rel and not b.is_cleanup(c.b)}
+                if pts and not any(rp in reach(b, [Point(0, 0)], avoid=pts) for rp in return_points(b)):
+                    rel.add(b.id)
+                    grew = True
+        drop_heads = set()
+        for b in facts.bodies:
+            if b.id in rel and b.impl and b.impl.get("trait") == "std::ops::Drop":
+                drop_heads.add(b.impl["self_head"])
+        cache = facts._root_release = (rel, drop_heads)
+    rel, drop_heads = cache
+    out = {c.point for c in body.calls if c.resolved in rel}
+    if drop_heads:
+        for c in body.calls:
+            if callee_str(c).endswith("mem::drop") and c.args and op_root(c.args[0]) is not None and \
+                    body.ty(op_root(c.args[0])).get("base") in drop_heads:
+                out.add(c.point)
+        for bi in range(len(body.blocks)):
+            t = body.term(bi)
+            if t["k"] == "drop" and (t.get("ty") or {}).get("base") in drop_heads:
+                out.add(body.term_point(bi))
+    return out
+
+
 POISONING = ("sync::Mutex", "sync::RwLock", "sync::poison::mutex::Mutex", "sync::poison::rwlock::RwLock")
 
 
@@ -336,7 +375,7 @@ def run(ctx, facts):
         for c in b.calls:
             if c.resolved not in acq_ids or b.is_cleanup(c.b):
                 continue
-            rels = {x.point for x in b.calls if x.resolved in rel_ids}
+            rels = root_release_points(facts, b, rel_ids)
             inside = reach(b, after(b, c.point, label="ret"), avoid=rels)
             bad = None
             for x in b.calls:
